@@ -4,6 +4,7 @@ package main
 // feasibility queries, and one-shot runs (z3 / z3-new / cvc5) on standalone files for obligations.
 
 import (
+	"context"
 	"bufio"
 	"bytes"
 	"fmt"
@@ -11,7 +12,6 @@ import (
 	"math/big"
 	"os"
 	"os/exec"
-	"sort"
 	"strings"
 	"sync"
 	"sync/atomic"
@@ -153,10 +153,15 @@ func varsOf(t *Term) []int {
 	case OpVar:
 		r = []int{t.ID}
 	default:
-		set := map[int]bool{}
+		// sorted sets, shared between terms: a term whose variables are those of its largest argument reuses that slice
+		// (deep terms that depend on "everything so far" would otherwise cost memory quadratic in the run length)
 		for _, a := range t.Args {
-			for _, v := range varsOf(a) {
-				set[v] = true
+			va := varsOf(a)
+			if len(va) > len(r) {
+				r, va = va, r
+			}
+			if len(va) > 0 && !subsetInts(va, r) {
+				r = unionInts(r, va)
 			}
 		}
 		if t.Op == OpUF {
@@ -168,16 +173,54 @@ func varsOf(t *Term) []int {
 			if h > 0 {
 				h = -h
 			}
-			set[h-1] = true
+			if x := []int{h - 1}; !subsetInts(x, r) {
+				r = unionInts(r, x)
+			}
 		}
-		r = make([]int, 0, len(set))
-		for v := range set {
-			r = append(r, v)
-		}
-		sort.Ints(r)
 	}
 	varsMemo.Store(t.ID, r)
 	return r
+}
+
+func subsetInts(a, b []int) bool {
+	if len(a) > len(b) {
+		return false
+	}
+	if len(a) > 0 && len(b) > 0 && &a[0] == &b[0] {
+		return true
+	}
+	j := 0
+	for _, x := range a {
+		for j < len(b) && b[j] < x {
+			j++
+		}
+		if j == len(b) || b[j] != x {
+			return false
+		}
+		j++
+	}
+	return true
+}
+
+func unionInts(a, b []int) []int {
+	out := make([]int, 0, len(a)+len(b))
+	i, j := 0, 0
+	for i < len(a) && j < len(b) {
+		switch {
+		case a[i] < b[j]:
+			out = append(out, a[i])
+			i++
+		case a[i] > b[j]:
+			out = append(out, b[j])
+			j++
+		default:
+			out = append(out, a[i])
+			i++
+			j++
+		}
+	}
+	out = append(out, a[i:]...)
+	return append(out, b[j:]...)
 }
 
 // sliceFor returns the conjuncts of pc that share variables (transitively) with c.
@@ -380,7 +423,41 @@ type QueryResult struct {
 }
 
 // RunOneShot runs one solver on a fresh process. values are terms whose model values are wanted (only read when sat).
+// RunPortfolio runs the query on z3 5.x, z3 4.8 and cvc5 side by side and returns the first definite verdict (the others
+// are killed); "unknown" only if none decides within the limit. Models are taken from whichever solver answered "sat".
+func RunPortfolio(timeoutS int, assertion *Term, values []*Term, keepFile string) QueryResult {
+	if assertion.IsFalse() {
+		return QueryResult{Verdict: "unsat", Solver: "fold", Model: map[string]*big.Int{}}
+	}
+	ctx, cancel := context.WithCancel(context.Background())
+	defer cancel()
+	solvers := []string{"z3", "z3-old", "cvc5"}
+	ch := make(chan QueryResult, len(solvers))
+	for i, sv := range solvers {
+		kf := ""
+		if i == 0 {
+			kf = keepFile
+		}
+		go func(sv, kf string) { ch <- runOneShotCtx(ctx, sv, timeoutS, assertion, values, kf) }(sv, kf)
+	}
+	last := QueryResult{Verdict: "unknown", Solver: "portfolio", Model: map[string]*big.Int{}}
+	for range solvers {
+		r := <-ch
+		if r.Verdict == "sat" || r.Verdict == "unsat" {
+			return r
+		}
+		if r.Seconds > last.Seconds {
+			last.Seconds, last.Raw = r.Seconds, r.Raw
+		}
+	}
+	return last
+}
+
 func RunOneShot(solver string, timeoutS int, assertion *Term, values []*Term, keepFile string) QueryResult {
+	return runOneShotCtx(context.Background(), solver, timeoutS, assertion, values, keepFile)
+}
+
+func runOneShotCtx(ctx context.Context, solver string, timeoutS int, assertion *Term, values []*Term, keepFile string) QueryResult {
 	t0 := time.Now()
 	res := QueryResult{Verdict: "unknown", Solver: solver, Model: map[string]*big.Int{}}
 	if assertion.IsFalse() {
@@ -422,15 +499,15 @@ func RunOneShot(solver string, timeoutS int, assertion *Term, values []*Term, ke
 	var cmd *exec.Cmd
 	switch solver {
 	case "z3":
-		cmd = exec.Command("z3-new", "-in", "-smt2", fmt.Sprintf("-T:%d", timeoutS))
+		cmd = exec.CommandContext(ctx, "z3-new", "-in", "-smt2", fmt.Sprintf("-T:%d", timeoutS))
 	case "z3-old":
-		cmd = exec.Command("z3", "-in", "-smt2", fmt.Sprintf("-T:%d", timeoutS))
+		cmd = exec.CommandContext(ctx, "z3", "-in", "-smt2", fmt.Sprintf("-T:%d", timeoutS))
 	case "z3-new":
-		cmd = exec.Command("z3-new", "-in", "-smt2", fmt.Sprintf("-T:%d", timeoutS))
+		cmd = exec.CommandContext(ctx, "z3-new", "-in", "-smt2", fmt.Sprintf("-T:%d", timeoutS))
 	case "cvc5":
-		cmd = exec.Command("cvc5", "--lang=smt2", fmt.Sprintf("--tlimit=%d", timeoutS*1000))
+		cmd = exec.CommandContext(ctx, "cvc5", "--lang=smt2", fmt.Sprintf("--tlimit=%d", timeoutS*1000))
 	case "cvc5-int":
-		cmd = exec.Command("cvc5", "--lang=smt2", "--solve-bv-as-int=sum", fmt.Sprintf("--tlimit=%d", timeoutS*1000))
+		cmd = exec.CommandContext(ctx, "cvc5", "--lang=smt2", "--solve-bv-as-int=sum", fmt.Sprintf("--tlimit=%d", timeoutS*1000))
 	default:
 		res.Verdict = "error"
 		return res
